@@ -9,6 +9,7 @@
 import Lc.Lemmas.StateSpec
 import Lc.Props.C12
 import Lc.Lemmas.Sort
+import Lc.Lemmas.TreeOrder
 
 namespace Lc.StateProbe
 open Lc Lc.Layers Lc.Mountinfo Lc.Layerfile Lc.Spec.World
@@ -183,9 +184,9 @@ theorem filter_length_pos {α : Type} (p : α → Bool) (l : List α) :
 /-- "something is mounted at or below `bd`", on the view and on the table -/
 theorem submounts_of_view {mnts : List Kernel.KMnt} {m : Mounts} (hv : MountsView mnts m) (bd : Bytes) :
     decide ((getMountAndSubmounts m bd).length > 0) = mnts.any (fun k => atOrBelow bd k.mp) := by
-  unfold getMountAndSubmounts
-  simp only []
-  rw [(Lc.sortBy_perm _ _).length_eq, filter_length_pos]
+  rw [(TreeOrder.getMountAndSubmounts_perm_region m bd).length_eq]
+  unfold TreeOrder.regionOf
+  rw [filter_length_pos]
   have h1 : m.list.any (fun x => x.mountpoint == bd || hasPrefix x.mountpoint (bd ++ [47]))
       = (m.list.map entryKey).any (fun x => x.mp == bd || hasPrefix x.mp (bd ++ [47])) := by
     rw [List.any_map]; rfl
